@@ -225,7 +225,7 @@ class Engine(ExprMixin, CallMixin, StmtMixin):
         self.depth = 0
         self.pending = []
         self.opaque = {n: z3.Function("U_" + n, z3.IntSort(), z3.IntSort())
-                       for n in c.opaque}
+                       for n in ([] if getattr(self, "no_opaque", False) else c.opaque)}
         self.merge = c.merge
         self.check_frames = c.check_frames
         self.ghost_consts = {n: (z3.Int if k == "int" else z3.Real)("g:" + n)
@@ -277,6 +277,8 @@ class Engine(ExprMixin, CallMixin, StmtMixin):
         raises = case.raises if case.raises is not None else c.raises
         outs = self.exec_block(info.node.body, env, st)
         outs += [(env, s, "raise", x) for (s, x) in self.pending]
+        self.last_exits = list(outs)          # for the CPython cross-check (pyvc/crosscheck.py)
+        self.last_params = dict(old_env)
         self.pending = []
         nret = 0
         exit_pcs = []
